@@ -374,6 +374,11 @@ func init() {
 		}
 		env, dir := newEnv(0)
 		c, lc := mkConfig(id, a[1] == "1", a[2] == "1", a[3] == "1", override)
+		if len(a) > 6 && a[6] == "swoff" {
+			// a retention is configured but the sweeper is off (the shipped defaults): nothing is
+			// swept, so no deletion marker may be refused either
+			c.Sweeper = config.Sweeper{Enabled: false, RetentionDays: 2}
+		}
 		if len(a) > 6 && a[6] == "sw" {
 			// tomb sweeper configured (its goroutine only runs under Sync): LoadOnce and the
 			// shadow capture refuse deletion markers older than now - (99% of) two days
